@@ -42,5 +42,4 @@ def run(ctx):
                         "data-race freedom is observed by the Go race detector on real goroutines (plain accesses are invisible to the scheduler shim)"]
 
 def replay(ctx, rp):
-    vlib.log("replay: concurrent histories are re-judged by re-running the check: ./check C01")
-    return 2
+    return vlib.replay_any(ctx, rp)
